@@ -32,6 +32,79 @@ def build():
     return BIN
 
 
+CLI_TARGET = os.path.join(VERIF, 'build', 'cli-target')
+
+
+def cli_flag_check(quick=True):
+    """C10, bounded: the real command-line binary (src/main.rs, built from /repo's working tree) forwards
+    --allow-ext / --allow-buffer to the generator and nothing else turns the opcodes on.  Single-file and
+    batch mode, the four flag combinations, protocols 2..5.  Returns (n_runs, first_violation or None)."""
+    import pickletools
+    import shutil
+    env = dict(os.environ, CARGO_NET_OFFLINE='true')
+    p = subprocess.run(['cargo', 'build', '--release', '--offline', '--quiet', '--manifest-path', '/repo/Cargo.toml',
+                        '--bin', 'pickle-fuzzer', '--target-dir', CLI_TARGET], env=env, capture_output=True, text=True)
+    if p.returncode != 0:
+        raise RuntimeError('CLI build failed: ' + p.stderr[-1500:])
+    exe = os.path.join(CLI_TARGET, 'release', 'pickle-fuzzer')
+    out = os.path.join(VERIF, 'build', 'cli-out')
+    shutil.rmtree(out, ignore_errors=True)
+    os.makedirs(out)
+    EXT = {'EXT1', 'EXT2', 'EXT4'}
+    BUF = {'NEXT_BUFFER', 'READONLY_BUFFER'}
+    n = 0
+    seen = dict(runs=0, ext=0, buf=0)
+
+    def look(path, ext, buf, what):
+        data = open(path, 'rb').read()
+        try:
+            names = set(o.name for o, a, q in pickletools.genops(data))
+        except Exception:  # noqa: BLE001 - other properties' business
+            return None
+        seen['runs'] += 1
+        seen['ext'] += bool(ext and names & EXT)
+        seen['buf'] += bool(buf and names & BUF)
+        if not ext and names & EXT:
+            return 'C10 %s: %s in the output although --allow-ext was not given' % (what, sorted(names & EXT))
+        if not buf and names & BUF:
+            return 'C10 %s: %s in the output although --allow-buffer was not given' % (what, sorted(names & BUF))
+        return None
+
+    try:
+        for P in (2, 3, 4, 5):
+            for ext in (False, True):
+                for buf in (False, True):
+                    fl = (['--allow-ext'] if ext else []) + (['--allow-buffer'] if buf else [])
+                    for sd in range(12 if quick else 120):
+                        f = os.path.join(out, 'one.pkl')
+                        cmd = [exe, f, '--protocol', str(P), '--seed', str(sd), '--min-opcodes', '150', '--max-opcodes', '300'] + fl
+                        if sd % 3 == 2:
+                            cmd += ['--mutators', 'typeconfusion', 'bitflip', '--mutation-rate', '0.5', '--unsafe-mutations']
+                        r = subprocess.run(cmd, capture_output=True, text=True)
+                        n += 1
+                        if r.returncode != 0:
+                            continue
+                        bad = look(f, ext, buf, ' '.join(cmd[2:]))
+                        if bad:
+                            return n, (' '.join(cmd[1:]), bad)
+                    d = os.path.join(out, 'batch')
+                    shutil.rmtree(d, ignore_errors=True)
+                    cmd = [exe, '--dir', d, '--samples', '40' if quick else '400', '--protocol', str(P), '--min-opcodes', '150', '--max-opcodes', '300'] + fl
+                    r = subprocess.run(cmd, capture_output=True, text=True)
+                    n += 1
+                    if r.returncode == 0 and os.path.isdir(d):
+                        for fn in sorted(os.listdir(d)):
+                            bad = look(os.path.join(d, fn), ext, buf, ' '.join(cmd[1:]) + ' file ' + fn)
+                            if bad:
+                                return n, (' '.join(cmd[1:]), bad)
+    finally:
+        shutil.rmtree(out, ignore_errors=True)
+    if not (seen['runs'] and seen['ext'] and seen['buf']):
+        # vacuity guard: the enabled configurations must actually show the opcodes
+        raise RuntimeError('CLI flag check is vacuous: %r' % seen)
+    return n, None
+
+
 def run_jobs(jobs, timeout=600):
     p = subprocess.run([BIN], input='\n'.join(jobs) + '\n', capture_output=True, text=True, timeout=timeout)
     lines = p.stdout.split('\n')
@@ -60,6 +133,9 @@ def findings(job, line):
     P = int(d.get('P', 2))
     if not line.startswith('ok '):
         return ['C09 generation did not return Ok: %s' % line]
+    state = None
+    if ' | ' in line:
+        line, state = line.split(' | ', 1)
     outs = [bytes.fromhex(h) for h in line[3:].split(',')]
     errs = []
     uns = d.get('unsafe') == '1'
@@ -82,10 +158,32 @@ def findings(job, line):
     mx = int(d['max']) if 'max' in d else 300
     errs += refcheck.check_all(o, P, unsafe=uns, ext=d.get('ext') == '1', buffer=d.get('buffer') == '1',
                                min_ops=mn, max_ops=mx)
+    if state is not None and not uns and not any(e.startswith(('C01', 'C04', 'C09')) for e in errs):
+        # C17 (end state only; the per-step statement is the proof's business): the simulated machine the
+        # generator is left with vs. the reference machine run on the returned bytes up to (not including) STOP
+        ops, derr = refcheck.decode(o)
+        if not derr and ops and ops[-1][0] == 'STOP':
+            me, states = refcheck.machine(ops[:-1], stop_at_first=False)
+            if not any(e.startswith('C01') for e in me):
+                rst, rmemo = (states[-1][1], states[-1][2]) if states else ([], [])
+                depth, marks, keys = state.split(';')
+                smarks = [int(x) for x in marks.split('.') if x]
+                skeys = [int(x) for x in keys.split('.') if x]
+                rmarks = [i for i, k in enumerate(rst) if k == refcheck.MARK]
+                if int(depth) != len(rst):
+                    errs.append('C17 simulated depth %s, reference machine depth %d before STOP' % (depth, len(rst)))
+                if smarks != rmarks:
+                    errs.append('C17 simulated MARK positions %r, reference %r' % (smarks, rmarks))
+                if skeys != sorted(rmemo):
+                    only_s = sorted(set(skeys) - set(rmemo))[:5]
+                    only_r = sorted(set(rmemo) - set(skeys))[:5]
+                    errs.append('C17 memo index sets differ: only simulated %r, only reference %r (sizes %d / %d)' % (only_s, only_r, len(skeys), len(rmemo)))
     return errs
 
 
 def grid(prop, quick, seed=0):
+    if prop == 'C17':
+        return [j + ' state=1' for j in grid('C01', quick, seed) if 'calls=' not in j]
     if prop in ('C07', 'C12'):
         return ['(C07: job list run in two processes; C12: seeds 0..N per protocol, opcode histogram)'] * (1000 if quick else 8000)
     rnd = random.Random(seed)
@@ -109,6 +207,9 @@ def grid(prop, quick, seed=0):
                'mut=' + ','.join(MUTS) + ' rate=0.6', 'mut=typeconfusion,offbyone rate=1.0',
                'mut=stringlen,character rate=0.5', 'mut=boundary rate=1.0']
     flags = ['', 'ext=1 buffer=1']
+    if prop == 'C10':
+        # each opt-in flag alone, and applied before / after the other builder calls
+        flags += ['ext=1', 'buffer=1', 'ext=1 cfgfirst=1', 'buffer=1 cfgfirst=1']
     if prop in ('C04', 'C06', 'C09', 'C10'):
         mutsets += ['mut=' + ','.join(MUTS) + ' rate=1.0 unsafe=1', 'mut=typeconfusion,memoindex rate=0.7 unsafe=1']
     if prop == 'C08':
@@ -126,16 +227,35 @@ def grid(prop, quick, seed=0):
                 else:
                     out.append('P=%d %s calls=seed;seed;freshseed' % (P, i))
                     out.append('P=%d %s calls=hex:01;seed;freshseed' % (P, i))
+            # a long pickle first (hundreds of memo entries, large allocations), then the same call again:
+            # anything that survives reset() through capacity or allocation state shows here
+            for sd in range(2 if quick else 10):
+                out.append('P=%d seed=%d min=4000 max=4001 calls=seed;seed;freshseed' % (P, sd))
         return out
     if prop == 'C11':
         mutsets += ['mut=stringlen rate=1.0']
         ranges += ['min=2 max=2', 'min=3 max=3']
     combos = list(itertools.product(range(6), ranges, mutsets, flags))
+    if prop == 'C11':
+        # inverted pairs (max < min) with a large gap: the target must be exactly min; the long POP tail of
+        # protocols 0/1 makes an overshoot visible in the opcode count
+        for P in range(6):
+            for sd in range(150 if quick else 1500):
+                jobs.append('P=%d seed=%d min=100 max=0' % (P, sd))
+            for h in inputs[:60]:
+                if h.startswith('hex='):
+                    jobs.append('P=%d %s min=100 max=0' % (P, h))
+                    jobs.append('P=%d %s min=40 max=1' % (P, h))
     # the plain default configuration gets many medium-sized pickles: rare opcode interleavings
     # (nested MARKs, particular kinds on top) need a few thousand samples to show up
     for P in range(6):
         for sd in range(120 if quick else 1500):
             jobs.append('P=%d seed=%d min=150 max=400' % (P, sd))
+    if prop == 'C01':
+        # very long pickles: more than 256 memo entries (text PUT/GET indices above one byte, LONG_BINPUT)
+        for P in range(6):
+            for sd in range(2 if quick else 8):
+                jobs.append('P=%d seed=%d min=8000 max=8001' % (P, sd))
     # every combination gets a few inputs; the cheap default configuration gets all of them
     for (P, r, m, f) in combos:
         if 'min=9000' in r and not (P >= 4 and m == '' and f == ''):
@@ -219,8 +339,11 @@ def find(prop, quick=True, seed=0, limit=None):
         return find_c12(quick, seed)
     jobs = grid(prop, quick, seed)
     if limit and len(jobs) > limit:
-        random.Random(seed).shuffle(jobs)
-        jobs = jobs[:limit]
+        # the few hand-placed corner jobs (very long pickles, inverted ranges, long-then-again) are always kept
+        special = [j for j in jobs if any(t in j for t in ('min=4000 ', 'min=8000 ', 'min=100 max=0'))][:60]
+        rest = [j for j in jobs if j not in set(special)]
+        random.Random(seed).shuffle(rest)
+        jobs = special + rest[:max(0, limit - len(special))]
     CH = 2000
     for k in range(0, len(jobs), CH):
         for job, line in run_jobs(jobs[k:k + CH]):
